@@ -202,6 +202,24 @@ func DiskTerms(evs []*scorch.VerifEvent, n *strace.Namer, ver strace.VersionOf) 
 				out = append(out, ditem{term: cf.App("XRollback", cf.U(e.Args[0]))})
 			case "bolt_epochs":
 				out = append(out, ditem{term: cf.App("XBoltEpochs", cf.ListOf(e.Args, cf.U))})
+			case "dir_begin":
+				out = append(out, ditem{term: "XDirBegin"})
+			case "dir_end":
+				out = append(out, ditem{term: cf.App("XDirEnd", cf.ListOf(e.Args, cf.U))})
+				stats["listing"]++
+			case "quiescent":
+				out = append(out, ditem{term: cf.App("XQuiescent", cf.ListOf(e.Args, cf.U))})
+				stats["quiescent"]++
+			case "copy_dest":
+				var ds []cf.T
+				for i, a := range e.Args[1:] {
+					if a == 0 {
+						ds = append(ds, cf.Pair(cf.Int(i), cf.None))
+					} else {
+						ds = append(ds, cf.Pair(cf.Int(i), cf.Some(cf.Z(int64(a)-1))))
+					}
+				}
+				out = append(out, ditem{term: cf.App("XCopyDest", cf.U(e.Args[0]), cf.List(ds))})
 			}
 		}
 	}
